@@ -130,9 +130,13 @@ func TestC04(t *testing.T) {
 		}
 		if !c.skipDeep {
 			if d := diffExported(dec, want); d != "" {
-				gen := reIndex.ReplaceAllString(d, "[*]")
+				// key by the top-level field of the message that differs
+				gen := reIndex.ReplaceAllString(d, "")
 				if i := bytes.IndexByte([]byte(gen), ':'); i > 0 {
 					gen = gen[:i]
+				}
+				if i := strings.Index(gen[1:], "."); i >= 0 {
+					gen = gen[:i+1]
 				}
 				if !fail("roundtrip-diff:"+id+":"+gen, fmt.Sprintf("%s.%s(%s): decoded message differs from the built one at %s (encoding %s)", c.Proto, c.Ctor, clipS(c.Desc, 200), d, evi.Hex(enc)), caseObj(enc)) {
 					return
